@@ -8,7 +8,7 @@
       F6  [q_partial_activation]   a failed activation leaves the contexts active + a partial overlay
       F7  [q_base_cache_ctx_blind] [_base_units_cache] is consulted whatever the active contexts
       F8  [q_rewrite_shared]       first activation rewrites the shared Context's rule endpoints, sets [checked]
-      F23 [q_rebuild_on_hit]       no early return after a cache hit: the overlay is rebuilt on top of the
+      F110 [q_rebuild_on_hit]       no early return after a cache hit: the overlay is rebuilt on top of the
                                    previous one, so units defined inside an overlay come and go
     [faithful] = pint as it is, [repaired] = all deviations off. *)
 From Coq Require Import Ascii.
